@@ -89,7 +89,17 @@ def generate(tier, rng):
     n = 1200 if tier == "quick" else 40000
     for _ in range(n):
         g, vals = _float_dtg(rng)
-        cases.append({"op": "rt", "g": g, "vals": vals, "fmt": rng.choice(FORMATS), "blanks": rng.random() < 0.5,
+        fmt, blanks = rng.choice(FORMATS), rng.random() < 0.5
+        if rng.random() < 0.3 and fmt != "json":
+            # a tier may span less than its textgrid (point tiers always; interval tiers when no blanks are filled in,
+            # since blank filling extends an interval tier to the textgrid's span by design)
+            for t in g["tiers"]:
+                if (not t["isint"] or not blanks) and rng.random() < 0.7:
+                    lo = t["entries"][0][0] if t["entries"] else g["xmax"]
+                    hi = t["entries"][-1][-2] if t["entries"] else g["xmin"]
+                    t["xmin"] = rng.randint(g["xmin"], min(lo, g["xmax"]))
+                    t["xmax"] = rng.randint(max(hi, t["xmin"]), g["xmax"])
+        cases.append({"op": "rt", "g": g, "vals": vals, "fmt": fmt, "blanks": blanks,
                       "empty": rng.random() < 0.5, "scale": ["rank", 0]})
     return cases
 
